@@ -150,6 +150,7 @@ func VerifSyncBlockFault() {
 	if err2 == nil && !died2 {
 		same := vrt.SameStore(vrt.Snapshot(dbF), vrt.Snapshot(dbR))
 		vrt.Assert("C10.retried-block-reaches-the-fault-free-ledger", same)
+		vrt.Assert("C02.retried-block-holds-all-its-effects", same)
 		vrt.Assert("C06.retried-block-considers-held-batches-exactly-as-the-first-attempt-would", same)
 	}
 }
